@@ -29,7 +29,7 @@ const (
 	// a declared length that exceeds the rest of the input by more than this is
 	// not presented to gmrtd (utils.BytesFromBuffer allocates the declared
 	// length before reading: resource behaviour is property C12, not C16)
-	hugeDeclared = 4 << 20
+	hugeDeclared = 1 << 16
 )
 
 var (
@@ -180,6 +180,9 @@ func checkInput(b []byte) (outcome, *failure) {
 		}
 		return o, failf("accepted-not-ber", "tlv.Decode accepts %s, which %s: %v; gmrtd tree re-encodes to %s", hx(b), what, errL, hx(g.Encode()))
 	}
+	if msg := tiling(b, refL, 0, len(b)); msg != "" {
+		return o, failf("harness", "reference parse does not account for every octet: %s; input %s", msg, hx(b))
+	}
 	if msg := cmpTree(g.Nodes(), refL); msg != "" {
 		return o, failf("tree-differs", "decoded tree differs from the BER reading at %s; input %s", msg, hx(b))
 	}
@@ -199,6 +202,43 @@ func checkInput(b []byte) (outcome, *failure) {
 		return o, f
 	}
 	return o, nil
+}
+
+// tiling is a self-check of the reference ("all input bytes are accounted
+// for"): the elements of a list follow each other without gaps from start, and
+// what is left up to end is nothing but one end-of-contents marker (identifier
+// 00, decoded length 0); inside every element, header + content (+ marker) make
+// up [Start,End).
+func tiling(b []byte, ns []*ber.Node, start, end int) string {
+	pos := start
+	for _, n := range ns {
+		if n.Start != pos || n.End > end {
+			return fmt.Sprintf("element %x at [%d,%d) expected to start at %d and end by %d", n.TagBytes, n.Start, n.End, pos, end)
+		}
+		hdr := len(n.TagBytes) + n.LenOctets
+		if n.Constructed {
+			cend := n.End
+			if !n.Indefinite {
+				if n.Start+hdr+len(n.Value) != n.End {
+					return fmt.Sprintf("element %x: header+content != extent", n.TagBytes)
+				}
+			}
+			if msg := tiling(b, n.Children, n.Start+hdr, cend); msg != "" {
+				return msg
+			}
+		} else if n.Start+hdr+len(n.Value) != n.End {
+			return fmt.Sprintf("primitive %x: header+content != extent", n.TagBytes)
+		}
+		pos = n.End
+	}
+	if pos == end {
+		return ""
+	}
+	h, err := ber.ParseHeader(b[pos:end], true)
+	if err != nil || len(h.TagBytes) != 1 || h.TagBytes[0] != 0 || h.Length != 0 || pos+h.HdrLen != end {
+		return fmt.Sprintf("octets [%d,%d) are neither an element nor an end-of-contents marker", pos, end)
+	}
+	return ""
 }
 
 // cmpTree compares gmrtd's nodes with the reference nodes; "" if equal, else a
